@@ -156,10 +156,14 @@ def log_problems(scenario, r):
 
 
 def transcript_problems(scenario, r):
-    """C10 oracle: the complete server->client stream of each connection, as events."""
+    """C10 oracle: the complete server->client stream of each connection, as events, plus the global-clock rule."""
+    out = stream_problems(scenario, r)
+    out.extend(dummy_timing_problems(scenario, r))
+    return out
+
+
+def stream_problems(scenario, r):
     out = []
-    lead_sent_step = {}
-    # global clock: step at which the opening lead of each board was sent by its leader
     for s in range(4):
         lines = [t for d, t in r.client_logs[s] if d == '<' and t is not None]
         got = [PR.classify(t) for t in lines]
@@ -177,7 +181,33 @@ def transcript_problems(scenario, r):
                 out.append(('a seat was sent more or fewer messages than the protocol entitles it to',
                             {'seat': A.SEATS[s], 'received': len(got), 'expected': len(exp), 'extra': extra,
                              'missing': [_ev(e) for e in exp[n:n + 3]]}))
-    out.extend(dummy_timing_problems(scenario, r))
+    return out
+
+
+def real_session_problems(scenario, sim, timeout_s=90.0):
+    """The same scenario on real threads and real loopback sockets (vf/sim/realrun.py): it must complete, satisfy the log
+    and transcript oracles, and write the byte-identical file / the same four transcripts as the simulated run."""
+    from vf.sim.realrun import run_real_session
+    rr = run_real_session(scenario, timeout_s)
+    if rr.timed_out:
+        raise Inconclusive(f'real-socket session did not finish within {timeout_s}s (wall-clock safety net)')
+    out = []
+    if rr.server_exc is not None:
+        out.append(('real threads: table manager raised with four conforming clients', {'exception': repr(rr.server_exc)[:300], 'tb': (rr.server_tb or '')[-500:]}))
+    for s_, e in sorted(rr.client_exc.items()):
+        out.append(('real threads: a conforming client could not finish the session', {'seat': A.SEATS[s_], 'exception': repr(e)[:300]}))
+    if out:
+        return out
+    out.extend(('real threads: ' + c, d) for c, d in log_problems(scenario, rr))
+    out.extend(('real threads: ' + c, d) for c, d in stream_problems(scenario, rr))
+    if not out and sim is not None:
+        if rr.output_text != sim.output_text:
+            out.append(('the log written on real threads differs from the log of the simulated run of the same session',
+                        {'real': rr.output_text[:300], 'simulated': sim.output_text[:300]}))
+        for s_ in range(4):
+            if rr.client_logs[s_] != sim.client_logs[s_]:
+                out.append(('a connection transcript on real sockets differs from the simulated run of the same session', {'seat': A.SEATS[s_]}))
+                break
     return out
 
 
@@ -343,7 +373,7 @@ def replay(pid, rec):
     mod = __import__(f'vf.props.{pid.lower()}', fromlist=['x'])
     for sched in ([{'kind': 'replay', 'trace': c['trace']}] if c.get('trace') else []) + [c['schedule']]:
         try:
-            mod.check_session(scenario, sched, None, **{k: c[k] for k in ('fault', 'schedule2', 'attempts', 'policy') if k in c})
+            mod.check_session(scenario, sched, None, **{k: c[k] for k in ('fault', 'schedule2', 'attempts', 'policy', 'real_sockets') if k in c})
         except Violation as v:
             return v
     return None
